@@ -45,7 +45,7 @@ MECHANISMS = [
     ('TotalDepth.LIS.core.FileIndexer', 'FileIndex.__init__'),
     ('TotalDepth.LIS.core.FileIndexer', 'IndexLogPass.add'),
 ]
-REQUIRED_MONITORS = ['index_model', 'index_again_after_loads', 'logpass_model', 'frame_values', 'implied_x', 'explicit_x', 'value_access',
+REQUIRED_MONITORS = ['index_model', 'index_again_after_loads', 'logpass_model', 'frame_values', 'implied_x', 'explicit_x', 'value_access', 'value_generators',
                      'submatrix_vs_full', 'read_containment', 'contract:RLEType01.tellLrForFrame',
                      'contract:FrameSet.__init__', 'contract:FrameSet.setFrameBytes:pre', 'contract:FrameSet.setIndirectX']
 MIN_NONTRIVIAL = {'quick': 400, 'thorough': 10000}
@@ -449,6 +449,47 @@ def run_shard(ctx, p):
                     if gotv != want:
                         viol('value_access', 'value', 'value(frame %d, channel %d, sample %d, burst %d) = %r, recorded %r' % (
                             sel[i], c, sa, bu, gotv, want), dict(w0, frame=sel[i], channel=c, sample=sa, burst=bu))
+            # the consumers' views of the loaded frame set (what the plotting and listing code reads): for a channel of ordinary
+            # (not dipmeter) values genChScValues yields every value frame by frame in sample/burst order, frameView / frame_channel_
+            # sub_channel_values are the columns of the channel, frame(i) is the row, and for a single-valued channel
+            # genChScPoints pairs each value with the X of its frame
+            if frames_equal and sel and cols:
+                rec.mon('value_generators')
+                c = rng.choice(chans)
+                ch = lp.channels[c]
+                if not ch.dipmeter:
+                    c0, nv = lp.col_start[c], ch.nvalues
+                    try:
+                        want = [float(M[f, c0 + j]) for f in sel for j in range(nv)]
+                        gotg = [float(v) for v in fs.genChScValues(c, 0)]
+                        view = np.asarray(fs.frameView(c, 0))
+                        i = rng.randrange(len(sel))
+                        one = np.asarray(fs.frame_channel_sub_channel_values(i, c, 0)).ravel().tolist()
+                        row = np.asarray(fs.frame(i)).ravel().tolist()
+                        pts = [(float(x), float(v)) for x, v in fs.genChScPoints(c, 0)] if nv == 1 else None
+                    except Exception as e:  # noqa
+                        viol('value_generators', 'exception', 'reading channel %d through the generators / views raised %s: %s' % (c, type(e).__name__, e),
+                             dict(w0, channel=c), exc=e)
+                    else:
+                        rec.add('values_through_generators', len(gotg))
+                        wantv = [[float(M[f, c0 + j]) for j in range(nv)] for f in sel]
+                        if gotg != want:
+                            k = next((q for q, (g, e_) in enumerate(zip(gotg, want)) if g != e_), min(len(gotg), len(want)))
+                            viol('value_generators', 'genChScValues', 'genChScValues(channel %d) yields %d values for %d x %d recorded; first difference at %d: %r, recorded %r' % (
+                                c, len(gotg), len(sel), nv, k, gotg[k] if k < len(gotg) else None, want[k] if k < len(want) else None), dict(w0, channel=c, position=k))
+                        elif view.reshape(len(sel), -1).tolist() != wantv:
+                            viol('value_generators', 'frameView', 'frameView(channel %d, 0) is not the channel\'s columns of the selected frames' % c, dict(w0, channel=c))
+                        elif one != wantv[i]:
+                            viol('value_generators', 'frame_channel_sub_channel_values', 'frame_channel_sub_channel_values(%d, %d, 0) = %r, recorded %r' % (i, c, one[:8], wantv[i][:8]),
+                                 dict(w0, channel=c, row=i))
+                        elif row != [float(v) for v in expM[i].tolist()]:
+                            viol('value_generators', 'frame', 'frame(%d) is not row %d of the requested sub-matrix' % (i, i), dict(w0, row=i))
+                        elif pts is not None and [v for x, v in pts] != want:
+                            viol('value_generators', 'genChScPoints-values', 'genChScPoints(channel %d) values differ from the recorded ones' % c, dict(w0, channel=c))
+                        elif pts is not None and len(xs) == len(pts) and not all(px == gx for (px, v), gx in zip(pts, xs)):
+                            k = next(q for q, ((px, v), gx) in enumerate(zip(pts, xs)) if px != gx)
+                            viol('value_generators', 'genChScPoints-x', 'genChScPoints(channel %d) pairs row %d with X %r, xAxisValue(%d) is %r' % (c, k, pts[k][0], k, xs[k]),
+                                 dict(w0, channel=c, row=k))
             # read containment
             rec.mon('read_containment')
             allowed = [(lp.extents[r][0], lp.extents[r][1]) for r in recs_needed]
